@@ -503,3 +503,39 @@ package flags
 //@   ensures[C16,C20] forall(j, 0, len(c.commands), !c.commands[j].Hidden ==> exists(i, 0, len(r), r[i] == c.commands[j]))
 //@   ensures[C15,C20] forall(i, 0, len(r), forall(j, i, len(r), r[i].Name <= r[j].Name))
 //@   assigns nothing
+
+// ===================================================================
+// option.go: namespaced names (walk up the group tree)
+// ===================================================================
+
+// The group above g: the enclosing group, or the group of the enclosing
+// command; nil at the parser.
+//@ pure func parentGroup(g *Group) *Group = ite(is(g.parent, *Command), as(g.parent, *Command).Group, ite(is(g.parent, *Group), as(g.parent, *Group), nil))
+// The parser at the top of g's chain of parents.
+//@ pure func parserOf(g *Group) *Parser = ite(is(g.parent, *Parser), as(g.parent, *Parser), parserOf(parentGroup(g)))
+// name prefixed by the non-empty namespaces of g and of every group above it, outermost first.
+//@ pure func nsName(g *Group, delim string, name string) string = ite(g == nil, name, nsName(parentGroup(g), delim, ite(g.Namespace != "", g.Namespace + delim + name, name)))
+//@ pure func envName(g *Group, delim string, name string) string = ite(g == nil, name, envName(parentGroup(g), delim, ite(g.EnvNamespace != "", g.EnvNamespace + delim + name, name)))
+
+// Trusted well-formedness of the group tree built by AddGroup/AddCommand/scan:
+// every group's parent is the parser, a command or a group (never nil), the
+// chain of parents is finite (gdepth) and ends at the parser; every option
+// belongs to a group.
+//@ assumed func gdepth(g *Group) (d int)
+//@   pure
+//@ axiom manual wf_group: forall g *Group :: g != nil ==> gdepth(g) >= 0 && (is(g.parent, *Parser) || is(g.parent, *Command) || is(g.parent, *Group)) && (is(g.parent, *Parser) ==> as(g.parent, *Parser) != nil) && (is(g.parent, *Command) ==> as(g.parent, *Command) != nil && as(g.parent, *Command).Group != nil && gdepth(as(g.parent, *Command).Group) < gdepth(g)) && (is(g.parent, *Group) ==> as(g.parent, *Group) != nil && gdepth(as(g.parent, *Group)) < gdepth(g))
+//@ axiom manual wf_option: forall o *Option :: o != nil ==> o.group != nil
+
+//@ func (option *Option) LongNameWithNamespace() (r string)
+//@   props C01 C07 C08 C13 C16 C04
+//@   requires option != nil
+//@   requires use(wf_option, option)
+//@   loop 1 invariant g != nil && use(wf_group, g) && unfold(parserOf(g)) && parserOf(g) == parserOf(option.group)
+//@   loop 1 decreases gdepth(g)
+//@   loop 2 invariant namespaceDelimiter == parserOf(option.group).NamespaceDelimiter
+//@   loop 2 invariant (g != nil ==> use(wf_group, g)) && unfold(nsName(g, namespaceDelimiter, longName))
+//@   loop 2 invariant nsName(g, namespaceDelimiter, longName) == nsName(option.group, namespaceDelimiter, option.LongName)
+//@   loop 2 decreases ite(g == nil, 0, gdepth(g) + 1)
+//@   ensures[C07,C08,C13] len(option.LongName) == 0 ==> r == ""
+//@   ensures[C07,C08,C13] len(option.LongName) != 0 ==> r == nsName(option.group, parserOf(option.group).NamespaceDelimiter, option.LongName)
+//@   assigns nothing
